@@ -18,7 +18,9 @@ export EGSIM_VERIF_DIR=$mx
 out=/verif/seeded/MATRIX.json.tmp; echo "{" > $out; first=1
 for d in /verif/seeded/*/; do
   id=$(basename "$d"); [ -f "$d/patch.diff" ] || continue
-  if [ "${FORCE:-0}" != "1" ] && [ -f /verif/seeded/MATRIX.json ] && python3 -c "import json,sys; sys.exit(0 if '$id' in json.load(open('/verif/seeded/MATRIX.json')) else 1)"; then continue; fi
+  # ONLY="id1 id2 ..." restricts the run to those ids (and implies FORCE for them)
+  if [ -n "${ONLY:-}" ]; then case " $ONLY " in *" $id "*) ;; *) continue;; esac; fi
+  if [ -z "${ONLY:-}" ] && [ "${FORCE:-0}" != "1" ] && [ -f /verif/seeded/MATRIX.json ] && python3 -c "import json,sys; sys.exit(0 if '$id' in json.load(open('/verif/seeded/MATRIX.json')) else 1)"; then continue; fi
   git -C $mx/repo apply "$d/patch.diff" || { echo "cannot apply $id"; continue; }
   if ! (cd $mx/sim && cargo build --release --offline >/dev/null 2>&1); then echo "$id: build failed"; git -C $mx/repo checkout -q -- .; continue; fi
   row=""
